@@ -30,7 +30,9 @@ func runC01(e *Engine, tier Tier) *PropRun {
 		return false
 	})
 	rs := e.verifyAll(fns, opts, nil)
+	safetyKinds := map[string]bool{"idx": true, "slice": true, "nil": true, "assert": true, "div": true, "makeslice": true, "panic": true, "pre": true, "dec": true}
 	return &PropRun{
+		Claim:   func(o *Obligation) bool { return safetyKinds[o.Kind] },
 		Results: rs, FUC: fucList(rs),
 		Explanation: "Zero-annotation panic-freedom sweep: for every function of the tokenizer, parser, AST, high-level API, scanner, linter, formatter, models, errors, keywords, token and metrics packages, one obligation per potentially panicking SSA instruction (index, slice bounds, nil dereference, type assertion, integer division, make with negative size, explicit panic), generated under the written contracts (data-structure invariants as preconditions, loop invariants) and discharged for all inputs. Only obligations in the committed baseline (discharged on the unchanged tree) are claimed; a claimed obligation that stops discharging is a violation and its counter-model is replayed against the real function. Termination (no hang) is decided by loop variants where written and by the recursion-rank obligations of C02.",
 		NotCovered: []string{"stack exhaustion other than through the recursion measure of C02", "out-of-memory", "obligations undecided on the unchanged tree (listed, unclaimed)", "regexp engine inside ScanSQL", "termination of loops without a written variant"},
